@@ -45,7 +45,11 @@ func (u *UpServer) startQUIC() error {
 		go srv.ServeListener(ln)
 		return nil
 	}
-	ln, err := tr.Listen(u.tlsConfig("doq"), quicConf())
+	qc := quicConf()
+	if u.Spec.QuicMaxStreams > 0 {
+		qc.MaxIncomingStreams = int64(u.Spec.QuicMaxStreams)
+	}
+	ln, err := tr.Listen(u.tlsConfig("doq"), qc)
 	if err != nil {
 		return err
 	}
